@@ -325,7 +325,9 @@ def rule_box(ctx: Ctx) -> None:
             st = {S(strip_v(e.recv)): strip_v(S(e.value)) for e in bp.effects if e.kind == "store"}
             basg = {e.recv: strip_v(S(e.value)) for e in bp.effects if e.kind == "assign"}
             rp = f"self.state.orientation.rotate({pt})"
-            ok = any(v == f"{rp}[:2]+self.state.position[:2]" for v in st.values()) or any(
+            augs = [(S(strip_v(e.recv)), e.name, strip_v(S(e.value))) for e in bp.effects if e.kind == "aug"]
+            ok_aug = any(basg.get(r.split("[")[0]) == rp and r.endswith("[:2]") and nm == "Add" and v == "self.state.position[:2]" for r, nm, v in augs)
+            ok = ok_aug or any(v == f"{rp}[:2]+self.state.position[:2]" for v in st.values()) or any(
                 basg.get(k.split("[")[0]) == rp and v == f"{k.split('[')[0]}[:2]+self.state.position[:2]" and k.endswith("[:2]") for k, v in st.items())
             ctx.check(ok, "C12-box", "DynamicObject.get_footprint", "rotate-translate", f"a footprint point becomes {sorted(st.values())[:2]}; expected rotate(point)[:2] + position[:2]", fi=ff)
 
